@@ -327,9 +327,9 @@ theorem view_sendSegment_tx (e : Ep) (it : TxItem) (sent : Nat) (hp : e.cfg.priv
   simp only [hp, Bool.and_false, Bool.false_eq_true, if_false, transferExt, List.nil_append]
   split
   · rw [txView_pqTrigger]
-    simp only [Ep.txView, sendMessage, kaReset, idleReset]
+    simp only [Ep.txView, sendMessage, sendReady, kaReset, idleReset]
     split <;> simp_all
-  · simp only [Ep.txView, sendMessage, kaReset, idleReset]
+  · simp only [Ep.txView, sendMessage, sendReady, kaReset, idleReset]
     split <;> simp_all
 
 theorem take_self_length {α} (l : List α) (k : Nat) : l.take (l.take k).length = l.take k := by
